@@ -199,6 +199,8 @@ class Evaluator:
             return None
         if isinstance(st, ast.Expr) and isinstance(st.value, ast.Constant):
             return None  # docstring
+        if isinstance(st, ast.Assign) and len(st.targets) == 1 and isinstance(st.targets[0], ast.Name) and not any(isinstance(x, (ast.Call, ast.NamedExpr, ast.Await, ast.Yield)) for x in ast.walk(st.value)):
+            return None  # a pure temporary: its readers were given its definition (a reader left unresolved is Unsupported)
         if on_stmt is not None:
             return on_stmt(self, st)
         raise Unsupported(f"statement outside the comparison fragment: {norm(st)[:80]}")
